@@ -6,7 +6,6 @@ import (
 	"fmt"
 	"go/token"
 	"go/types"
-	"sort"
 	"strings"
 )
 
@@ -175,6 +174,7 @@ func (ex *Exec) markEnvOwned(st *State, v Val) {
 
 // guarded components: component name -> lock (type key, leaf) that must be held.
 type guardInfo struct {
+	writesOnly bool
 	lockRoot types.Type
 	lockLeaf int
 	tags     []string
@@ -183,6 +183,23 @@ type guardInfo struct {
 
 func (eng *Engine) buildGuards(ex *Exec) map[string]guardInfo {
 	out := map[string]guardInfo{}
+	ex.atomicOnly = map[string][]string{}
+	for _, g := range eng.specs.AtomicOnly {
+		pkg := eng.pkgBySuffix(g.Pkg)
+		if pkg == nil {
+			continue
+		}
+		for _, f := range g.Fields {
+			ft, lo, cnt, ok := resolveTypeFieldRange(pkg, f)
+			if !ok {
+				ex.notes = append(ex.notes, "contract error: atomic_only: cannot resolve field "+f)
+				continue
+			}
+			for k := lo; k < lo+cnt; k++ {
+				ex.atomicOnly[compH(ft, k)] = g.Tags
+			}
+		}
+	}
 	for _, g := range eng.specs.Guards {
 		pkg := eng.pkgBySuffix(g.Pkg)
 		if pkg == nil {
@@ -190,17 +207,19 @@ func (eng *Engine) buildGuards(ex *Exec) map[string]guardInfo {
 		}
 		lt, lleaf, ok := resolveTypeField(pkg, g.Lock)
 		if !ok {
-			ex.notes = append(ex.notes, "guarded_by: cannot resolve lock "+g.Lock)
+			ex.notes = append(ex.notes, "contract error: guarded_by: cannot resolve lock "+g.Lock)
 			continue
 		}
 		for _, f := range g.Fields {
+			wo := strings.HasSuffix(f, "!w")
+			f = strings.TrimSuffix(f, "!w")
 			ft, lo, cnt, ok := resolveTypeFieldRange(pkg, f)
 			if !ok {
-				ex.notes = append(ex.notes, "guarded_by: cannot resolve field "+f)
+				ex.notes = append(ex.notes, "contract error: guarded_by: cannot resolve field "+f)
 				continue
 			}
 			for k := lo; k < lo+cnt; k++ {
-				out[compH(ft, k)] = guardInfo{lockRoot: lt, lockLeaf: lleaf, tags: g.Tags, desc: f + " guarded by " + g.Lock}
+				out[compH(ft, k)] = guardInfo{lockRoot: lt, lockLeaf: lleaf, tags: g.Tags, desc: f + " guarded by " + g.Lock, writesOnly: wo}
 			}
 		}
 	}
@@ -261,48 +280,41 @@ func resolveTypeFieldRange(pkg *types.Package, s string) (types.Type, int, int, 
 	return root, lo, cnt, true
 }
 
-// lockFreeAtEnv: no lock of the module may be held while calling out.
+// lockFreeAtEnv: the mutexes named by the unit's "lockfree" clause must not be
+// held while calling out (re-entrancy / deadlock freedom).
 func (ex *Exec) lockFreeAtEnv(fr *Frame, st *State, reach, name string, pos token.Pos) {
-	if !ex.lockChecks {
-		return
-	}
-	for _, lk := range ex.locksSeen(st) {
-		ex.oblige(fr, "lock", ex.lockTags, pos, "no lock held while calling the environment ("+name+")", reach,
-			fmt.Sprintf("(forall ((r Int)) (not (select %s r)))", lk))
-	}
+	ex.lockFreeOblige(fr, st, reach, pos, "not held while calling the environment ("+name+")")
 }
 
 func (ex *Exec) lockAtReturn(fr *Frame, st *State, reach string, pos token.Pos) {
-	if !ex.lockChecks {
+	ex.lockFreeOblige(fr, st, reach, pos, "not held at return")
+}
+
+func (ex *Exec) lockFreeOblige(fr *Frame, st *State, reach string, pos token.Pos, what string) {
+	top := ex.topFrame
+	if !ex.lockChecks || top == nil || top.ctr == nil || len(top.ctr.LockFree) == 0 {
 		return
 	}
-	for _, lk := range ex.locksSeen(st) {
-		ex.oblige(fr, "lock", ex.lockTags, pos, "no lock held at return", reach,
-			fmt.Sprintf("(forall ((r Int)) (not (select %s r)))", lk))
+	env := ex.newSpecEnv(top.fn, st, top.entry)
+	ex.bindParams(env, top.fn, top.ctr, top.params)
+	for _, n := range top.ctr.LockFree {
+		held := env.evalBool(&Node{Kind: "call", Args: []*Node{{Kind: "ident", Name: "held"}, n}}, "lockfree clause")
+		ex.oblige(fr, "lock", top.ctr.LockTags, pos, "mutex "+nodeText(n)+" "+what, reach, mkNot(held))
 	}
 }
 
-// locksSeen returns the current terms of all mutex-typed components touched so far.
-func (ex *Exec) locksSeen(st *State) []string {
-	var names []string
-	for name := range ex.lockComps {
-		names = append(names, name)
-	}
-	sort.Strings(names)
-	var out []string
-	for _, n := range names {
-		out = append(out, ex.comp(st, n, sArr(sInt, sBool)))
-	}
-	return out
-}
+func (ex *Exec) locksSeen(st *State) []string { return nil }
 
 // guardCheck is called on every access to a heap component.
 func (ex *Exec) guardCheck(fr *Frame, st *State, reach string, comp, ref string, pos token.Pos, write bool) {
 	if !ex.lockChecks || ex.guards == nil {
 		return
 	}
+	if tags, only := ex.atomicOnly[comp]; only && !ex.inAtomic {
+		ex.oblige(fr, "lock", tags, pos, "field is accessed through sync/atomic only", reach, mkNot(mkSelect(ex.topFrame.entryAlloc, ref)))
+	}
 	g, ok := ex.guards[comp]
-	if !ok {
+	if !ok || (g.writesOnly && !write) {
 		return
 	}
 	// constructor exemption: objects allocated in this call are thread-local
@@ -327,9 +339,12 @@ func (ex *Exec) lockOwner(g guardInfo, comp, ref string) string {
 	if strings.HasPrefix(comp, "H|"+typeKey(g.lockRoot)+"|") {
 		return ref
 	}
-	// field of another type (e.g. event.* guarded by eventList.Mutex): the owner
-	// is given by the ghost function owner_<lock>(ref)
-	name := "lockowner_" + sanitize(typeKey(g.lockRoot))[:12]
+	// field of another type (event.* guarded by eventList.Mutex): the lock
+	// instance is the one named by the unit's lockfree clause
+	if ex.unitLockRef != "" {
+		return ex.unitLockRef
+	}
+	name := "lockowner_" + sanitize(typeKey(g.lockRoot))
 	ex.sc.fun(name, []string{sInt}, sInt)
 	return app(name, ref)
 }
